@@ -335,8 +335,9 @@ def new_op(d, ixs, n):
 
 
 class HistBase(Family):
-    batch = 200
-    case_timeout = 10.0
+    batch = 50
+    case_timeout = 2.5
+    _hang = False
 
     def setup(self):
         gc.disable()
@@ -359,17 +360,12 @@ class HistBase(Family):
         univ = universe(ops)
         w = World(n)
         out = []
-        try:
-            for k, op in enumerate(ops):
-                st = w.do(op)
-                out.append(w.observe(st, univ, thr, with_masks=(k == len(ops) - 1 or op[0] in ("de", "remc", "rem"))))
-        finally:
-            while w.ctx:
-                try:
-                    w.ctx.pop().__exit__(None, None, None)
-                except Exception:
-                    pass
         self._last_world = w   # strong reference until the next case
+        for k, op in enumerate(ops):
+            st = w.do(op)
+            out.append(w.observe(st, univ, thr, with_masks=(k == len(ops) - 1 or op[0] in ("de", "remc", "rem"))))
+        # open delay blocks are simply abandoned with the World (never run glue code outside the
+        # per-case alarm: a hanging implementation must stay interruptible)
         return out
 
     def line(self, case, pyout):
@@ -384,10 +380,21 @@ class HistBase(Family):
             return False
 
     def signature(self, case, po, res):
+        """Coarse on purpose (few groups to shrink): the kind of the first operation after which the
+        implementation's observation differs from the model's / is rejected, plus the construct tag."""
         ops = case[1]
-        kinds = sorted(set(op[0] for op in ops))
-        sig = {"ops": ",".join(kinds)}
+        HistBase._hang = not isinstance(po, list)
+        if not isinstance(po, list):
+            return {"at": str(po)}
+        sig = {}
         try:
+            impl = res.get("impl")
+            at = "none"
+            for k, op in enumerate(ops):
+                if not isinstance(impl, list) or k >= len(impl) or k >= len(po) or impl[k] != po[k]:
+                    at = op[0]
+                    break
+            sig["at"] = at
             if any(op[0] in ("addls", "remls") and ob[0] != "ok" for op, ob in zip(ops, po)):
                 sig["construct"] = "list-op-raising"
         except Exception:
@@ -396,14 +403,22 @@ class HistBase(Family):
 
     def shrink(self, case):
         thr, ops = case
-        # drop one operation at a time (later ones first), then shorten component lists
+        idx = [i for i, op in enumerate(ops) if op[0] != "new"]
+
+        def drop(which):
+            w = set(which)
+            return [thr, [op for i, op in enumerate(ops) if i not in w]]
+        n = len(idx)
+        if n >= 4:
+            yield drop(idx[n // 2:])
+            yield drop(idx[:n // 2])
+        # a hanging implementation makes every candidate cost a time-out: keep the rounds small
+        limit = 6 if HistBase._hang else 64
+        for i in list(reversed(idx))[:limit]:
+            yield drop([i])
         for i in reversed(range(len(ops))):
-            if ops[i][0] == "new":
-                continue
-            yield [thr, ops[:i] + ops[i + 1:]]
-        for i in reversed(range(len(ops))):
-            if ops[i][0] == "new":
-                yield [thr, ops[:i] + ops[i + 1:]]
+            if ops[i][0] == "new" and not HistBase._hang:
+                yield drop([i])
 
 
 def setup_ops(layout, n, in_dc=None):
